@@ -195,63 +195,86 @@ def rule_provenance(chk, tree):
     cls = M.find_class(tree, 'Integrator')
     fac = M.find_func(cls, '_get_dt_adapt_factors')
     cts = M.find_func(cls, 'compute_time_step')
-    # 1. name tuple order -> factor index
-    tuples = [t for t in ast.walk(fac) if isinstance(t, ast.Tuple) and all(M.const_str(e) in FORMULA for e in t.elts)
-              and len(t.elts) == 3]
-    if not tuples:
-        raise AnalysisError('criterion name tuple vanished from _get_dt_adapt_factors')
-    order = [M.const_str(e) for e in tuples[0].elts]
-    for t in tuples:
-        chk.decide([M.const_str(e) for e in t.elts] == order, 'criterion-provenance', 'name-order@%d' % t.lineno, node=t,
-                   file=INT, func='_get_dt_adapt_factors',
-                   detail_bad='criterion tuples disagree in order: %s vs %s' % ([M.const_str(e) for e in t.elts], order),
-                   detail_ok='order %s' % order)
-    # each loop enumerates the tuple and indexes factors with the enumerate index under `name in pa.properties`
-    for loop in [l for l in ast.walk(fac) if isinstance(l, ast.For) and isinstance(l.iter, ast.Call)
-                 and M.call_name(l.iter) == 'enumerate']:
-        iv, nv = [U(e) for e in loop.target.elts]
-        earg = loop.iter.args[0] if loop.iter.args else None
-        full = isinstance(earg, ast.Tuple) and [M.const_str(e) for e in earg.elts] == order
-        chk.decide(full, 'criterion-provenance', 'index-is-position-in-criterion-tuple@%d' % loop.lineno, node=loop, file=INT,
-                   func='_get_dt_adapt_factors',
-                   detail_bad='factor slot index comes from enumerate(%s): it is not the position of the name in %s, so a maximum can '
-                              'land in another criterion\'s slot and formula' % (U(earg) if earg is not None else None, order),
-                   detail_ok='enumerate over the full criterion tuple')
-        upd = [a for a in ast.walk(loop) if isinstance(a, ast.Assign) and isinstance(a.targets[0], ast.Subscript)
-               and U(a.targets[0].value) == 'factors']
-        for a in upd:
-            idx = U(a.targets[0].slice)
-            val = a.value
-            ok = idx == iv and isinstance(val, ast.Call) and M.call_name(val) == 'max' and \
-                U(val.args[0]) == 'factors[%s]' % iv
-            src = U(val.args[1]) if isinstance(val, ast.Call) and len(val.args) > 1 else ''
-            d = None
-            for s in ast.walk(loop):
-                if isinstance(s, ast.Assign) and U(s.targets[0]) == src:
-                    d = s.value
-            uses_name = d is not None and nv in [x.id for x in ast.walk(d) if isinstance(x, ast.Name)]
-            ismax = d is not None and ('max' in U(d))
-            chk.decide(ok and uses_name and ismax, 'criterion-provenance', 'factor-fold@%d' % a.lineno, node=a, file=INT,
-                       func='_get_dt_adapt_factors',
-                       detail_bad='factor update %s does not fold max over the property named by the enumerated criterion' % U(a),
-                       detail_ok='factors[i] = max(factors[i], max of property name_i)')
-    # unpack/return order
-    ret = [r for r in ast.walk(fac) if isinstance(r, ast.Return) and r.value is not None]
-    unpack = [a for a in ast.walk(fac) if isinstance(a, ast.Assign) and U(a.value) == 'factors' and isinstance(a.targets[0], ast.Tuple)]
-    if len(ret) != 1:
-        raise AnalysisError('_get_dt_adapt_factors return shape changed')
-    rv = ret[0].value
-    if unpack:
-        names = [U(e) for e in unpack[0].targets[0].elts]
-        rnames = [U(e) for e in rv.elts] if isinstance(rv, ast.Tuple) else []
-        chk.decide(names == rnames, 'criterion-provenance', 'return-order', node=ret[0], file=INT, func='_get_dt_adapt_factors',
-                   detail_bad='factors unpacked as %s but returned as %s' % (names, rnames), detail_ok='returned in tuple order')
-    elif U(rv) not in ('factors', 'tuple(factors)'):
-        chk.undecided('criterion-provenance', 'return-order', node=ret[0], file=INT, func='_get_dt_adapt_factors',
-                      detail='unknown return shape %s' % U(rv))
+    # 1. which factor is which: decided by interpreting _get_dt_adapt_factors on model arrays (rule_factors_model) - the k-th returned value is the maximum of the
+    #    k-th criterion property over the arrays that define it
+    order = ['dt_cfl', 'dt_force', 'dt_visc']
+    chk.floor('model runs of _get_dt_adapt_factors', rule_factors_model(chk, tree), 40)
     # 2.-4. compute_time_step and _get_explicit_dt_adapt are decided per feasible path through the methods (private helpers inlined, path-local names substituted), and
     #       the returned step is compared with cfl * min(<formula of every criterion whose factor is positive>) as algebra (value numbering), not as text
     rule_step_value(chk, tree, order)
+
+
+def rule_factors_model(chk, tree):
+    """Integrator._get_dt_adapt_factors interpreted (E8) on model particle arrays: for every order of the arrays, factor k is the maximum of criterion property k over the
+    arrays that define it (each array's own maximum; on the GPU the maximum refreshed for that property in this call), -1 when no array defines it or all are empty"""
+    import itertools
+    from verif_static import emit as EM, absint as AI
+    cls = M.find_class(tree, 'Integrator')
+    fac = M.find_func(cls, '_get_dt_adapt_factors')
+    NAMES = ('dt_cfl', 'dt_force', 'dt_visc')
+    saved = dict((k, AI.EXTERNAL_CALLS.get(k)) for k in ('numpy.max', 'numpy.amax'))
+    AI.EXTERNAL_CALLS['numpy.max'] = AI.EXTERNAL_CALLS['numpy.amax'] = lambda i, a, k, n, e: max(a[0])
+
+    def cpu(name, **vals):
+        return EM.mock(name=name, gpu=None, properties=dict((k, EM.mock()) for k in list(vals) + ['x', 'h']), get=lambda i, a, k, n, e: list(vals[a[0]]) if a[0] in vals else [0.0])
+
+    def gpu(name, **vals):
+        cols = dict((k, EM.mock(maximum=97.0 + j, minimum=-5.0)) for j, k in enumerate(vals))      # stale until refreshed
+
+        def upd(i, a, k, n, e):
+            only_max = k.get('only_max', a[1] if len(a) > 1 else False)
+            for nm in a[0]:
+                if nm in cols:
+                    cols[nm].attrs['maximum'] = max(vals[nm])
+                    if not only_max:
+                        cols[nm].attrs['minimum'] = min(vals[nm])
+            return None
+        g = EM.mock(update_minmax_cl=upd, **cols)
+        return EM.mock(name=name, gpu=g, properties=dict((k, EM.mock()) for k in list(vals) + ['x', 'h']), get=lambda i, a, k, n, e: AI.Opaque('host copy'))
+    ARRAYS = {'wall': lambda: cpu('wall'), 'fluid': lambda: cpu('fluid', dt_cfl=[0.1, 0.3], dt_force=[0.5], dt_visc=[0.7, 0.6]),
+              'solid': lambda: cpu('solid', dt_cfl=[0.9, 0.2]), 'empty': lambda: cpu('empty', dt_cfl=[], dt_force=[], dt_visc=[]),
+              'dev': lambda: gpu('dev', dt_force=[1.1, 0.4], dt_visc=[0.2]), 'devwall': lambda: gpu('devwall')}
+
+    def expect(names):
+        out = []
+        data = {'fluid': {'dt_cfl': 0.3, 'dt_force': 0.5, 'dt_visc': 0.7}, 'solid': {'dt_cfl': 0.9}, 'dev': {'dt_force': 1.1, 'dt_visc': 0.2},
+                'empty': {'dt_cfl': -1.0, 'dt_force': -1.0, 'dt_visc': -1.0}}
+        for k in NAMES:
+            out.append(max([-1.0] + [data[n_][k] for n_ in names if k in data.get(n_, {})]))
+        return tuple(out)
+    cases = [c for r in (1, 2, 3) for c in itertools.permutations(('wall', 'fluid', 'solid', 'dev'), r)] + [('wall',), ('empty', 'wall'), ('wall', 'empty', 'devwall'), ('devwall', 'dev', 'fluid'),
+                                                                                                          ('empty', 'fluid'), ('fluid', 'empty'), ()]
+    bad, und = [], None
+    try:
+        for names in cases:
+            it = EM.interpreter()
+            integ = EM.instance(it, INT, 'Integrator', acceleration_evals=[EM.mock(particle_arrays=[ARRAYS[n_]() for n_ in names])])
+            try:
+                got = EM.call(it, integ, '_get_dt_adapt_factors')
+            except AI.Unsupported as e:
+                und = 'arrays %s: %s' % (list(names), e)
+                break
+            try:
+                gt = tuple(float(x) for x in got)
+            except Exception:
+                und = 'arrays %s: result %r' % (list(names), got)
+                break
+            if any((g_ != w_) if w_ > 0 else not (g_ < 0) for g_, w_ in zip(gt, expect(names))) or len(gt) != 3:
+                bad.append((names, gt, expect(names)))
+    finally:
+        for k, v in saved.items():
+            if v is None:
+                AI.EXTERNAL_CALLS.pop(k, None)
+            else:
+                AI.EXTERNAL_CALLS[k] = v
+    if und:
+        chk.undecided('criterion-provenance', 'factors:model-run', node=fac, file=INT, func='_get_dt_adapt_factors', detail='not interpretable on the model: ' + und)
+    else:
+        chk.decide(not bad, 'criterion-provenance', 'factors:model-run', node=fac, file=INT, func='_get_dt_adapt_factors',
+                   detail_bad='for the model arrays %s (in this order) the factors (dt_cfl, dt_force, dt_visc) come out as %s; the maxima over the arrays that define each property are %s'
+                              % ((list(bad[0][0]), bad[0][1], bad[0][2]) if bad else ('', '', '')),
+                   detail_ok='%d orders / selections of six model arrays (CPU, GPU with stale cached maxima, empty, without the properties)' % len(cases))
+    return len(cases)
 
 
 def _is_inf(e):
@@ -572,9 +595,9 @@ def main(chk):
                        'formula provenance compared with the formulas of the property statement, dt_adapt override, fallback '
                        'to the fixed step in Solver._compute_timestep.')
     t = M.py(INT)
-    n = rule_folds(chk, INT, t, [('Integrator', 'compute_h_minimum'), ('Integrator', '_get_explicit_dt_adapt'),
-                                 ('Integrator', '_get_dt_adapt_factors')])
-    chk.floor('folds in integrator.py', n, 3)
+    # (the running maxima of _get_dt_adapt_factors are decided by the model run in rule_provenance: an array without the property, or an empty one, leaves the factor negative)
+    n = rule_folds(chk, INT, t, [('Integrator', 'compute_h_minimum'), ('Integrator', '_get_explicit_dt_adapt')])
+    chk.floor('folds in integrator.py', n, 2)
     # _my_max identity for empty input
     mm = M.find_method(t, 'Integrator', '_my_max')
     rets = [U(r.value) for r in ast.walk(mm) if isinstance(r, ast.Return)]
